@@ -112,6 +112,8 @@ func c03Reasons(f *chk.Fn, g *chk.Graph, lbIPs types.Object) []chk.Guard {
 
 func runC03(p *chk.Prog, r *chk.Report) {
 	// pools that contain one another are refused: the owner of an address is unambiguous (CIDR-CONTAINS, shared with C02, C08)
+	// a held address stays while a pool contains all of the Service's addresses: the membership test (MEMBER, shared with C02)
+	c02Member(p, r)
 	cidrContainmentRule(p, r)
 	argRolesRule(p, r, 20, allocPkg, "controller")
 	// a released allocation leaves no tenant behind (SIBLING, shared with C11): a ghost tenant makes the next holder's re-adoption fail
